@@ -215,6 +215,23 @@ async def _real_izp(c, a, p):
     return [c.T(int(bool(v)))]
 
 
+def _pub(op):
+    async def real(c, a, p):
+        v = await c.rt.output(a[1])       # a public field element as the library hands it out
+        if op == 'add':
+            return [a[0] + v]
+        if op == 'mul':
+            return [a[0] * v]
+        if op == 'rsub':
+            return [v - a[0]]
+        return [a[0] / v]
+    return real
+
+
+_op('addpub', _pub('add'), _f2(lambda F, x, y: F.add(x, y)), is_async=True)
+_op('rsubpub', _pub('rsub'), _f2(lambda F, x, y: F.sub(y, x)), is_async=True)
+_op('mulpub', _pub('mul'), _f2(lambda F, x, y: F.mul(x, y)), is_async=True)
+_op('divpub', _pub('div'), _f2(lambda F, x, y: F.mul(x, F.inv(y))), is_async=True)
 _op('is_zero_public', _real_izp, lambda t, a, p: [int(a[0] == 0)], is_async=True)
 
 
@@ -347,6 +364,8 @@ class Gen:
                 opn = rng.choice(('add', 'sub', 'mul', 'mul', 'div', 'neg', 'sqr', 'addc', 'rsubc', 'mulc', 'divc',
                                   'rdivc', 'pow', 'reciprocal'))
                 if opn in ('add', 'sub', 'mul', 'div'):
+                    if rng.random() < 0.12:
+                        opn = {'add': 'addpub', 'sub': 'rsubpub', 'mul': 'mulpub', 'div': 'divpub'}[opn]
                     ok = self.try_op(opn, [rng.choice(S), rng.choice(S)], {}, ['S'])
                 elif opn in ('neg', 'sqr', 'reciprocal'):
                     ok = self.try_op(opn, [rng.choice(S)], {}, ['S'])
@@ -354,6 +373,8 @@ class Gen:
                     ok = self.try_op(opn, [rng.choice(S)], {'n': rng.choice((0, 1, 2, 3, 5, -1, -2, self.q - 1, self.q - 2, 254))}, ['S'])
                 else:
                     c = rng.randrange(self.q) if td['d'] == 1 else rng.randrange(min(self.q, 1 << 30))
+                    if td['d'] == 1 and rng.random() < 0.3:
+                        c += rng.choice((-3, -2, -1, 1, 2, 5)) * self.q     # public int operand outside [0, q): reduced mod q
                     ok = self.try_op(opn, [rng.choice(S)], {'c': c}, ['S'])
             elif k == 'eq':
                 opn = rng.choice(('eq', 'ne', 'is_zero'))
